@@ -100,6 +100,38 @@ def cases(seed, tier):
         c["script"][0]["inject"] = [{"id": "p", "at": {"msg": n_, "plus": rng.choice([1, 2, 3])}, "do": "pause"}]
         c["script"][0]["decisions"] = [{"do": "sleep", "t": 1.0}, {"do": "resume"}]
         yield c
+    # one status of a group fails while another status of the same group is still pending; the plan handles the
+    # FailedStatus at the wait and waits for the rest of the group again (or a pause + resume replays the wait):
+    # the failure is delivered once, at that wait, and nothing is thrown at a later site
+    if pg.motors and pg.dets:
+        m, d = pg.motors[0], pg.dets[0]
+        g = pg.group()
+        tgt = round(specs[m].get("initial", 0.0) + 3.0, 3)
+        for j, variant in enumerate(["rewait", "rewait-pause", "pause"]):
+            rewait = [msg(S, "wait", None, group=g), msg(S, "null")] if variant != "pause" else [msg(S, "null")]
+            plan = [
+                msg(S, "checkpoint"),
+                msg(S, "set", m, tgt, group=g),
+                msg(S, "trigger", d, group=g),
+                {"op": "try", "site": S(), "body": [msg(S, "wait", None, group=g)], "handlers": [{"exc": "FailedStatus", "body": rewait, "reraise": False}]},
+                msg(S, "null"),
+                msg(S, "sleep", None, 0.1),
+                msg(S, "null"),
+            ]
+            c = copy.deepcopy(case)
+            c["variant"] = f"group-partly-failed-{variant}"
+            c["script"][0]["plan"] = plan
+            failing, slow = (m, d) if rng.random() < 0.5 else (d, m)
+            for dev in (m, d):
+                c["devices"][dev].pop("faults", None)
+            c["devices"][d]["trigger_delay"] = 0.3
+            c["devices"][m]["velocity"] = 5.0
+            meth = "set" if failing == m else "trigger"
+            c["devices"][failing].setdefault("faults", {})[f"{meth}#0"] = {"kind": "status_fail", "exc": "RuntimeError", "delay": rng.choice([0.0, 0.05])}
+            if variant != "rewait":
+                c["script"][0]["inject"] = [{"id": "p", "at": {"msg": 7 if variant == "pause" else 9, "plus": rng.choice([0, 1, 2])}, "do": "pause"}]
+                c["script"][0]["decisions"] = [{"do": "resume"}]
+            yield c
 
 
 def check(res):
@@ -188,8 +220,22 @@ def check(res):
                 )
             )
             return out
+    # one failure is delivered once: nothing else is thrown into the plan (no terminating request is scheduled in
+    # this workload), e.g. a stale failed status left in its group failing a later wait
+    extra = [e for e in plan if e.d["what"] == "thrown" and e.seq != thrown.seq]
+    if extra:
+        x = extra[0]
+        out.append(
+            V(
+                "second-error-from-one-failure",
+                f"one device failure ({f.d['dev']}.{method}, {f.d['fault']}) but the plan was also thrown {x.d['exc']} at site {x.d['site']}",
+                method=method,
+                exc=x.d["exc"],
+            )
+        )
+        return out
     # unhandled => the call raises it
-    handled = any(e.d["what"] == "except" and e.seq > thrown.seq for e in plan)
+    handled =any(e.d["what"] == "except" and e.seq > thrown.seq for e in plan)
     plan_done = any(e.d["what"] == "plan_done" for e in plan)
     if not handled and not plan_done:
         want = "FailedStatus" if f.d["fault"] != "raise" else thrown.d["exc"]
